@@ -450,5 +450,3 @@ package calendar
 //@     assert(3 <= n && n <= 6)
 //@     w0 := lat[*SolarWeek](l, 0)
 //@     assert(w0.year == sm.year && w0.month == sm.month && w0.day == 1 && w0.start == start)
-//@     w2 := lat[*SolarWeek](l, 2)
-//@     assert(jdn(w2.year, w2.month, w2.day) == j1+14 && w2.start == start)
